@@ -2,6 +2,7 @@ package main
 
 import (
 	"fmt"
+	"golang.org/x/tools/go/ssa"
 	"os"
 	"sort"
 	"strings"
@@ -77,6 +78,51 @@ func init() {
 					ls = append(ls, fmt.Sprintf("%v:%s", l.truth, pf.get(l.v).key))
 				}
 				fmt.Println("  clause:", strings.Join(ls, "  OR  "))
+			}
+		}
+	}
+}
+
+func init() {
+	debugCmds["facts"] = func(args []string) {
+		p, err := loadProg("/repo", "")
+		if err != nil {
+			fmt.Println(err)
+			os.Exit(2)
+		}
+		c, _ := newCtx(p, "DBG", "quick")
+		pe := pEngine(c)
+		for _, f := range pe.O.fns {
+			if len(args) == 0 || !strings.Contains(funcName(f), args[0]) {
+				continue
+			}
+			pf := pe.pf(f)
+			for _, b := range f.Blocks {
+				fmt.Printf("%s b%d:\n", funcName(f), b.Index)
+				for _, s := range pf.factsAt(b).strings() {
+					fmt.Println("    ", s)
+				}
+			}
+		}
+	}
+}
+
+func init() {
+	debugCmds["convs"] = func(args []string) {
+		p, _ := loadProg("/repo", "")
+		for _, pk := range p.ScopePkgs() {
+			for _, fn := range pkgFunctions(p, pk.PkgPath) {
+				for _, b := range fn.Blocks {
+					for _, ins := range b.Instrs {
+						if cv, ok := ins.(*ssa.Convert); ok && isIntType(cv.Type()) && isIntType(cv.X.Type()) {
+							slo, shi, _ := intTypeRange(cv.X.Type())
+							tlo, thi, _ := intTypeRange(cv.Type())
+							if slo.Cmp(tlo) < 0 || shi.Cmp(thi) > 0 {
+								fmt.Printf("%s %s: %s -> %s\n", p.Pos(cv.Pos()), funcName(fn), cv.X.Type(), cv.Type())
+							}
+						}
+					}
+				}
 			}
 		}
 	}
